@@ -1,4 +1,4 @@
 SPECIFICATION TSpec
 CONSTANTS
-  Guards = {"G1", "G2", "G3", "G4", "G5"}
+  Guards = {"G2", "G3", "G4", "G5"}
 CHECK_DEADLOCK FALSE
